@@ -148,9 +148,16 @@ def present(a, how):
         return pd.Series(np.asarray(a))
     if how == "series_rev":
         return pd.Series(np.asarray(a), index=np.arange(len(a))[::-1])
+    if how == "series_mixed":
+        # every array gets its own index (a rotation that depends on its content): arguments of one call do not share an index, only positions pair them
+        a = np.asarray(a)
+        shift = (int(abs(float(a[0])) * 7919) % max(len(a), 1)) if len(a) and np.isfinite(float(a[0])) else 0
+        return pd.Series(a, index=np.roll(np.arange(len(a)), shift))
     raise ValueError(how)
 
 
+# "series_mixed" (every argument with its own index) is deliberately NOT among the generated containers: for Series whose indexes differ, pairing by
+# position and pairing by label are both defensible and the properties do not say which; verde.inside, for one, pairs by label (DESIGN.md 8.2)
 CONTAINERS = ["array", "array", "array", "series", "series_rev"]
 
 
